@@ -173,8 +173,10 @@ def discharge(obligations, timeout_s=30, procs=None, both=False, ground=True):
                 nm = results[i].ob.name
                 if failed.get(nm, 0) >= 2:
                     # this obligation already failed twice in this script: do
-                    # not spend the full budget on every further instance
-                    o = _solve_z3((t, 4000, False, False))
+                    # not spend the budget on every further instance of it
+                    o = ('unknown', None, 0.0,
+                         'not attempted: the same obligation already failed '
+                         'twice in this script')
                 else:
                     o = _solve_z3((t, int(timeout_s * 1000), True, ground))
                 if o[0] != 'unsat':
@@ -199,8 +201,13 @@ def discharge(obligations, timeout_s=30, procs=None, both=False, ground=True):
             elif res == 'candidate':
                 r.status = 'candidate'
                 r.model = model
-            if r.status == 'unknown' or both:
-                cres, csecs, creason = _solve_cvc5(t, timeout_s)
+            cvc_used = getattr(discharge, '_cvc_count', {})
+            skip = (r.reason or '').startswith('not attempted') or \
+                cvc_used.get(r.ob.name, 0) >= 2
+            if (r.status == 'unknown' and not skip) or both:
+                cvc_used[r.ob.name] = cvc_used.get(r.ob.name, 0) + 1
+                discharge._cvc_count = cvc_used
+                cres, csecs, creason = _solve_cvc5(t, min(timeout_s, 15))
                 r.seconds += csecs
                 if r.status == 'unknown' and cres == 'unsat':
                     r.status, r.backend = 'proved', 'cvc5'
